@@ -643,6 +643,9 @@ func genSession(r *rnd, h *History, deep bool) {
 			op.Type = blockTypes[r.n(len(blockTypes))]
 		}
 		h.Ops = append(h.Ops, op)
+		if op.Kind == "remove_block" && r.chance(1, 2) {
+			h.Ops = append(h.Ops, genMove(r))
+		}
 	}
 }
 
@@ -701,7 +704,22 @@ func genHistory(seed uint64, profile string, deep bool) *History {
 			h.Ops = append(h.Ops, op)
 			continue
 		}
-		h.Ops = append(h.Ops, genBodyOp(r, true))
+		op := genBodyOp(r, true)
+		h.Ops = append(h.Ops, op)
+		if op.Kind == "remove_block" && r.chance(1, 2) {
+			h.Ops = append(h.Ops, genMove(r))
+			i++
+		}
 	}
 	return h
+}
+
+// genMove is the second half of a block move: the block removed by the
+// previous operation is appended to another body, up to three levels down.
+func genMove(r *rnd) OpM {
+	op := OpM{Kind: "append_held_block", Handle: -1}
+	for i := r.n(4); i > 0; i-- {
+		op.Path = append(op.Path, r.n(1<<16))
+	}
+	return op
 }
